@@ -336,9 +336,6 @@ impl HookMon {
                         if buf_len > l {
                             self.growths += 1;
                         }
-                        if buf_len < l {
-                            self.v(format!("receive buffer shrank {} -> {}", l, buf_len));
-                        }
                     }
                     self.last_buf_len = Some(buf_len);
                 }
